@@ -70,6 +70,8 @@ def _operands(op, rng, i):
     n = gen.OPS[op][1]
     shapes = ['f%d' % i, '|x| x + %d' % i, '{ let k = %d; move |x| x + k }' % i, 'g::<u8, Vec<_>>(%d)' % i, '|x| -> u8 { x }', 'obj.m%d' % i,
               'm!(a |> b, %d)' % i, '(|x| (x > %d) | (x < 2))' % i,
+              # a brace- or bracket-delimited macro invocation is an ordinary expression, not a block operand
+              'm! { a |> b, %d }' % i, 'vec![f, %d]' % i,
               # block-LIKE expressions that are not blocks (only `{..}` / labelled blocks are hoisted)
               'if c%d { f } else { g }' % i, 'match k%d { _ => f }' % i, 'unsafe { f%d }' % i, "'l%d: { f }" % i, 'async { f%d }' % i, 'loop { break f%d }' % i]
     if op in ('Dot', 'Dot2'):
@@ -77,7 +79,7 @@ def _operands(op, rng, i):
     if op == 'Collect':
         return [rng.choice(['', 'Vec<_>', 'Vec<(u8, u8)>'])]
     if op == 'Unzip':
-        return [rng.choice(['', '_, _, Vec<_>, Vec<_>'])]
+        return [rng.choice(['', '_, _, Vec<_>, Vec<_>', 'u8, char, Vec<u8>, String', '_, _, Vec<_>, std::collections::BTreeSet<_>'])]
     return [rng.choice(shapes) for _ in range(n)]
 
 
@@ -240,9 +242,20 @@ def dedup(cases):
 def run_history(rng, tier, rep, distinct):
     """C20: the same invocations expanded repeatedly, in permuted order, and concurrently from 8 threads; EVERY expansion of
     the history is compared with the single value the model gives (correspondence A)."""
-    base = dedup([(k, t, 'history', tag) for (k, t, tag) in famA_profile(rng, 'quick') + famA_ops(rng, 'quick')])
+    base = dedup([(k, t, 'history', tag) for (k, t, tag) in famA_profile(rng, 'quick') + famA_ops(rng, 'quick') + famA_opts(rng, 'quick')])
     rng.shuffle(base)
     base = base[:60 if tier == 'quick' else 300]
+    # invocations that differ only in an option value (or its absence), for every kind that emits option-dependent helper items:
+    # anything remembered from one expansion shows in another one
+    fixed = []
+    for k in ('100', '110', '101', '111'):
+        for o in ('futures_crate_path(::fut_a) ', 'futures_crate_path(::fut_b::inner) ', ''):
+            fixed.append((k, o + 'a |> f ~|> g, b', 'history', 'fcp'))
+    for k in ('000', '001', '010'):
+        for o in ('custom_joiner(ja) ', 'custom_joiner(jb!) lazy_branches(true) ', ''):
+            fixed.append((k, o + 'a |> f, b ~|> g, c', 'history', 'joiner'))
+    base = dedup(base + fixed)
+    rng.shuffle(base)
     hist = []
     for rnd in range(3):                       # three passes, each in a different order, interleaved with other invocations
         order = list(range(len(base)))
@@ -251,8 +264,12 @@ def run_history(rng, tier, rep, distinct):
     ids = [('h%d' % i, base[j][0], base[j][1]) for i, j in enumerate(hist)]
     seq = jv.corr_A_gen(ids, tag='Hseq')
     conc = jv.corr_A_gen(ids[:len(base) * 2], tag='Hconc', threads=8)
+    # the same invocations once more in a fresh process, in the REVERSE order of the first pass: a value that depends on what was expanded
+    # before shows as a difference between the two histories
+    rids = [('r%d' % i, base[j][0], base[j][1]) for i, j in enumerate(reversed(hist[:len(base)]))]
+    rev = jv.corr_A_gen(rids, tag='Hrev')
     first = {}
-    for r, j in list(zip(seq, hist)) + list(zip(conc, hist)):
+    for r, j in list(zip(seq, hist)) + list(zip(conc, hist)) + list(zip(rev, reversed(hist[:len(base)]))):
         rep['A_cases'] += 1
         distinct.add((r['kind'], r['text']))
         toks = (r['impl'].get('gen') or {}).get('ok')
@@ -268,8 +285,8 @@ def run_history(rng, tier, rep, distinct):
             rep['A_diffs'].append({'family': 'history', 'kind': r['kind'], 'text': r['text'], 'code': r.get('code'), 'status': bad})
             if 'model value' not in bad or (j in first and first[j] != toks):
                 rep['witnesses'].append({'macro': gen.KIND_NAME[r['kind']], 'dsl': r['text'], 'why': bad,
-                                         'history': 'position %s of a history of %d expansions (3 shuffled passes over %d invocations, then 8 threads)' % (r['id'], len(ids), len(base))})
-    rep['families']['A:history'] = {'invocations': len(base), 'sequential_expansions': len(seq), 'concurrent_expansions_x8': len(conc)}
+                                         'history': 'position %s of a history of %d expansions (3 shuffled passes over %d invocations, then 8 threads, then one reversed pass in a fresh process)' % (r['id'], len(ids), len(base))})
+    rep['families']['A:history'] = {'invocations': len(base), 'sequential_expansions': len(seq), 'concurrent_expansions_x8': len(conc), 'reversed_pass_expansions': len(rev)}
     rep['samples'].append({'stage': 'A/history', 'kind': base[0][0], 'dsl': base[0][1][:200], 'expanded_times': 3 + 8})
 
 
@@ -507,8 +524,8 @@ def run_B_progs(progs, name='b', all_strings=False):
         cfg = jv.cconfig(p.kind)
         tn = 'None' if getattr(p, 'unnamed', False) else '(Some "main")'
         d['_tn'] = tn
-        d['no_spec'] = bool(p.options)          # Spec.v is the semantics of the default options: with options the model (den o gen) is the reference
-        mm = '0' if d['no_spec'] else 'check_mm_as %s %s %s_i %s_t' % (tn, cfg, nm, nm)
+        # the reference is SpecOpts.spec_opts at the options the input carries (= Spec.spec for the default options, proved)
+        mm = 'check_mm_as %s %s %s_i %s_t' % (tn, cfg, nm, nm)
         expr = ('(check_rt_as %s %s %s_i %s_t %s_o + 1000000000 * (%s + 1000000000 * check_gen %s %s_i %s_g))%%N'
                 % (tn, cfg, nm, nm, nm, mm, cfg, nm, nm))
         items.append((defs, expr))
@@ -524,10 +541,10 @@ def run_B_progs(progs, name='b', all_strings=False):
     sitems = []
     for d in differing:
         cfg = jv.cconfig(d['kind'])
-        sitems.append((d['_defs'], ['spec_run_as %s %s %s_i %s_t' % (d['_tn'], cfg, d['_nm'], d['_nm']),
+        sitems.append((d['_defs'], ['spec_opts_run_as %s %s %s_i %s_t' % (d['_tn'], cfg, d['_nm'], d['_nm']),
                                     'model_run_as %s %s %s_i %s_t' % (d['_tn'], cfg, d['_nm'], d['_nm'])]))
     for d, v in zip(differing, jv.run_coq_strings(sitems, header=B_HEADER, tag='Bs')):
-        d['exp'] = {'spec': v[1] if d.get('no_spec') else v[0], 'model': v[1]}
+        d['exp'] = {'spec': v[0], 'model': v[1]}
     return out
 
 
@@ -541,7 +558,7 @@ def expected_strings(d):
     defs = 'Definition i := %s.\nDefinition t := %s.' % (jv.cinput(impl['parse']['ok']), p.table.coq())
     cfg = jv.cconfig(p.kind)
     res = {}
-    for nm, fn in (('spec', 'spec_run'), ('model', 'model_run')):
+    for nm, fn in (('spec', 'spec_opts_run'), ('model', 'model_run')):
         out = jv.coq_eval_strings(defs, '%s %s i t' % (fn, cfg), header='Set Printing Width 1000000.\nSet Printing Depth 1000000.\n' + B_HEADER)
         m = re.search(r'= "(.*)"\s*:\s*string', out, re.S)
         res[nm] = re.sub(r'\s+', ' ', m.group(1)).replace('""', '"').split(' ') if m else None
